@@ -119,6 +119,8 @@ def to_files(proj: Dict[str, Any]) -> Tuple[Dict[str, str], Dict[str, Any]]:
         if proj['extra'].get('cycle') and im['mod'] == '_a':
             lines.append('from p import api as _cyc_api')
             lines.append('import p.c1')
+        # a helper class that is never exported: annotations of members of exported classes name it
+        lines += ['class Hlp%s:' % im['mod'], '    """helper of %s"""' % im['mod']]
         for d in im['defs']:
             defs[d['name']] = (im['mod'], d)
             if d['kind'] == 'class':
@@ -130,6 +132,7 @@ def to_files(proj: Dict[str, Any]) -> Tuple[Dict[str, str], Dict[str, Any]]:
                 for mname in d['members']:
                     lines.append('    def %s(self):' % mname)
                     lines.append('        """ID:%d.%s"""' % (d['id'], mname))
+                lines += ['    ha: Hlp%s = None' % im['mod'], '    def hm(self, x):', '        """hm', '', '        @type x: L{Hlp%s}' % im['mod'], '        """']
                 if d.get('attr') == 'ivar':
                     lines += ['    def __init__(self):', '        self.t = 0']
                 elif d.get('attr') == 'cvar':
